@@ -151,7 +151,7 @@ class inject:
 
 
 def run_creation(yaw, root: Path, *, L, CS, W, pre="absent", overwrite=False, fault=None, fault_chunk=0,
-                 empty_centre=False, mode="apply", chooser=None, seed=0, where="reader"):
+                 empty_centre=False, mode="apply", chooser=None, seed=0, where="reader", kill=None):
     """Run Catalog.from_dataframe for the scenario on the deterministic
     runtime.  Returns a dict with the projection onto the spec's terminal state
     and everything the oracles need."""
@@ -174,10 +174,16 @@ def run_creation(yaw, root: Path, *, L, CS, W, pre="absent", overwrite=False, fa
         return dict(records=records_of(cat), keys=list(cat.keys()),
                     centers=cat.get_centers().data.tolist(), num=list(cat.get_num_records()))
 
+    killer = None
+    if kill == "init":        # before the writer process ran a single statement
+        killer = detrt.kill_process_when(lambda t: t.label == ("start",))
+    elif kill is not None:    # ("get", j): while it waits for / is about to take item j+1 off the queue
+        killer = detrt.kill_process_when(lambda t, j=kill[1]: t.label[:1] == ("get",) and t.seq == 1 + j)
     with inject(yaw, where if fault_chunk else "reader", (fault_row or 0) + 1):
-        sched, outcome = detrt.run_main(main, chooser=chooser, seed=seed, describe=describe_item)
+        sched, outcome = detrt.run_main(main, chooser=chooser, seed=seed, describe=describe_item, before_step=killer)
     after = snapshot(path)
-    res = dict(path=path, before=before, after=after, kind=outcome[0], sched=sched, df=df)
+    res = dict(path=path, before=before, after=after, kind=outcome[0], sched=sched, df=df,
+               killed=bool(killer is not None and killer.state["done"]))
     if outcome[0] == "ok":
         res["result"] = outcome[1]
     elif outcome[0] == "raised":
